@@ -334,9 +334,11 @@ def Aggregator.confirmDS (g : Aggregator) : List Confirmed → Aggregator
       Aggregator.confirmDS { g with ds := aset c.sourceID c.detID g.ds, reports := g.reports.map (confirmReport c) } cs
     else Aggregator.confirmDS g cs
 
-/-- aggregator.go: reportPrice.aggregate. A slot without a price (`nil` *big.Int) is outside the
-model (it needs two deterministic sources; Go panics in `Median`): treated as 0 and flagged by
-`Report.hasNil`. -/
+/-- aggregator.go: reportPrice.aggregate. A slot without a price (`nil` *big.Int: it needs two
+deterministic sources; Go panics in `Median`) is read as 0 HERE and flagged by `Report.hasNil`; the
+nil-aware layer `Model/OracleNil.lean` (`Report.aggregateN`, …, `deliverTxN` — what the driver runs)
+treats it as the Go code does, and coincides with this definition wherever no slot is nil
+(`Proofs/OracleNil.lean: Aggregator.aggregateN_eq`, `deliverTxN_eq`). -/
 def Report.aggregate (r : Report) : Int :=
   match r.price with
   | some p => p
